@@ -157,7 +157,13 @@ def script_cache_check(filename, cachefname):
     run_cached = False
     if os.path.isfile(cachefname):
         if os.stat(cachefname).st_mtime >= os.stat(filename).st_mtime:
-            with open(cachefname, "rb") as cfile:
+            try:
+                cfile = open(cachefname, "rb")
+            except OSError:
+                # Cache entry exists but cannot be opened (e.g. permissions):
+                # ignore it and run the script uncached.
+                return False, None
+            with cfile:
                 if not _check_cache_versions(cfile):
                     return False, None
                 try:
@@ -215,7 +221,13 @@ def code_cache_check(cachefname):
     ccode = None
     run_cached = False
     if os.path.isfile(cachefname):
-        with open(cachefname, "rb") as cfile:
+        try:
+            cfile = open(cachefname, "rb")
+        except OSError:
+            # Cache entry exists but cannot be opened (e.g. permissions):
+            # ignore it and run the code uncached.
+            return False, None
+        with cfile:
             if not _check_cache_versions(cfile):
                 return False, None
             try:
